@@ -145,6 +145,9 @@ func (P) Gen(rng *sim.Rng, tier string) *harness.Case {
 	c := &harness.Case{}
 	if cfg.Conc {
 		k := rng.Range(2, 4)
+		if tier == "thorough" && rng.Chance(0.3) {
+			k = rng.Range(5, 7) // thorough: now and then a larger crowd
+		}
 		c.Callers = make([][]harness.Op, k)
 		for i := range c.Callers {
 			c.Callers[i] = gen(rng.Range(3, 10), false)
